@@ -1031,7 +1031,7 @@ def _gen(rng, family='random'):
     elif r < 0.27:     # a schema on which Checker.check raises (TypeError out of a user function) for /site/vdoc/... names
         case['schemas']['S7'] = TEMPLATES['fnraise'](site)
         case['insts'].append({'schema': 'S7', 'anchor': h1.anchor, 'userfns': True})
-        pkts.append(h1.packet('vdoc', [usr], 8))
+        pkts.append(h1.packet('vdoc', ['uv'], 8))      # a user of its own: its certificate is untouched by the deviation
     elif r < 0.36:     # an anchor that is not properly self-signed
         bad = dict(case['objs'][h1.anchor])
         bad['name'] = f'/{site}/KEY/zr'
